@@ -437,6 +437,10 @@ fn run_case(stream: &str, f: &[&str]) -> String {
             hex(&vh::expand_args_token(&unhex(f[0]), &args))
         }
         "argsin" => (if vh::is_args_in_token(&unhex(f[0])) { "1" } else { "0" }).to_string(),
+        "ptree" => match vh::parse_script(&unhex(f[0])) {
+            Ok(s) => s,
+            Err(_) => "SYNTAX-ERROR".to_string(),
+        },
         "globq" => match vh::glob_query(&unhex(f[0])) {
             Some(v) => if v.is_empty() { "[]".to_string() } else { v.iter().map(|x| hex(x)).collect::<Vec<_>>().join("/") },
             None => "!".to_string(),
